@@ -637,6 +637,12 @@ def static_keys(r, triples):
     shared_refs = set(r["proj"].get("shared_refs", ()))
     shared_used = any(q["o"] == "var" and q["s"] in shared_refs for q in rows)
 
+    def alt_generated(w):
+        # a name generated by expanding a definition (_<name>_<call count>_) in a request that uses the alternative constant
+        # context: both contexts count their calls from 0, so the same generated name exists in both (same known defect;
+        # in a request without the alternative context such a clash is NOT attributed to it)
+        return str(r["req"].get("ctx", "")).startswith("alt:") and re.match(r"^_+[A-Za-z]\w*?_\d+_$", w) is not None
+
     def alt_var(w):      # a variable of the alternative context: declared with the constant type, not as an XlaOp
         return any(st["op"] == "assign" and st["var"] == w and st["ty"] not in ("", "XlaOp", "xla::XlaOp") for st in r["prog"]["stmts"])
     out = {}
@@ -665,9 +671,11 @@ def static_keys(r, triples):
         elif clause == "distinct_share":
             w = str(what)
             detail = "variable " + ("constant_<value>" if w.startswith("constant_") else
-                                    "named in both constant contexts" if (w in shared_refs or (shared_used and alt_var(w))) else "other")
+                                    "named in both constant contexts" if (w in shared_refs or (shared_used and alt_var(w)) or alt_generated(w)) else "other")
         elif clause == "def_before_use":
-            detail = what if what in NAMED_WORDS else ("argument renamed in the body only" if what in r.get("renamed_args", ()) else
+            # (a Python spelling of a constant is keyed with the constant context of the request: the alternative context
+            # prints constants through the cpp target, the plain one through the xla printer itself)
+            detail = (what + ("@alt" if str(r["req"].get("ctx", "")).startswith("alt:") else "")) if what in NAMED_WORDS else ("argument renamed in the body only" if what in r.get("renamed_args", ()) else
                                                        "constant without an operand (free symbol)" if (what in free or (free and row in likes)) else
                                                        "var" if row not in likes else "operand a constant is attached to")
         elif clause in ("single_assignment", "declared_type"):
